@@ -419,6 +419,22 @@ func streamScenario(r *rand.Rand, i int, tier string) *Case {
 		sc.randomOp()
 	}
 	randomSteps := len(sc.steps)
+	rounds, quietRounds := sc.converge()
+	cat := []string{fmt.Sprintf("canary:%v", withCanary), fmt.Sprintf("neighbours:%d", len(sc.others)), fmt.Sprintf("converged:%v", quietRounds >= 3)}
+	if rounds > 10 {
+		cat = append(cat, "rounds>10")
+	}
+	if sc.lastEdsKind != "ok" {
+		cat = append(cat, "eds-reconcile-reports-error")
+	}
+	return &Case{Fn: "scenario", In: map[string]interface{}{"ops": sc.ops, "randomSteps": randomSteps},
+		Out: map[string]interface{}{"steps": sc.steps}, Cat: cat}
+}
+
+// converge is the convergence phase shared by the random and the scripted scenarios: lift every hold,
+// let canaries resolve, cooperate until three quiet rounds; the final store is appended as the
+// "quiescent" step.
+func (sc *scenario) converge() (rounds, quietRounds int) {
 	// ---- convergence phase: lift every hold, let canaries resolve, cooperate until quiescent
 	sc.w.quiet(func() {
 		for _, p := range sc.w.pods(sc.ns) { // the pod garbage collector removes Unknown pods; failed ones are the controller's job
@@ -438,7 +454,7 @@ func streamScenario(r *rand.Rand, i int, tier string) *Case {
 		}
 	})
 	sc.ops = append(sc.ops, "--- convergence phase")
-	quietRounds, rounds := 0, 0
+	quietRounds, rounds = 0, 0
 	maxRounds := 60
 	streams := genericclioptions.IOStreams{In: &bytes.Buffer{}, Out: &bytes.Buffer{}, ErrOut: &bytes.Buffer{}}
 	for rounds < maxRounds && quietRounds < 3 {
@@ -466,13 +482,5 @@ func streamScenario(r *rand.Rand, i int, tier string) *Case {
 	v := sc.w.view(sc.ns, sc.name)
 	sc.steps = append(sc.steps, stepJ{"quiescent", "final", map[string]interface{}{"view": v, "ns": sc.ns, "eds": sc.name},
 		map[string]interface{}{"rounds": rounds, "converged": quietRounds >= 3, "maxRounds": maxRounds, "lastEdsKind": sc.lastEdsKind}})
-	cat := []string{fmt.Sprintf("canary:%v", withCanary), fmt.Sprintf("neighbours:%d", len(sc.others)), fmt.Sprintf("converged:%v", quietRounds >= 3)}
-	if rounds > 10 {
-		cat = append(cat, "rounds>10")
-	}
-	if sc.lastEdsKind != "ok" {
-		cat = append(cat, "eds-reconcile-reports-error")
-	}
-	return &Case{Fn: "scenario", In: map[string]interface{}{"ops": sc.ops, "randomSteps": randomSteps},
-		Out: map[string]interface{}{"steps": sc.steps}, Cat: cat}
+	return rounds, quietRounds
 }
